@@ -9,7 +9,8 @@ INFO = {
              'none) and a deviation kind (raise before/after next, early Response, swallow, replace the result; '
              'endpoint/render raising) and endpoint returning Response or context; also on the catch-all route. The '
              'recorded enter / saw-return / saw-exception trace and the final outcome must equal the model\'s, tokens '
-             'compared by object identity. Non-trivial = >=2 phases populated and (a deviation is present or a unique '
+             'compared by object identity. Every tier also runs the complete family of 9 middleware-type lists on application x embedded '
+             'application x route (729 stacks, undisturbed and with one deviation). Non-trivial = >=2 phases populated and (a deviation is present or a unique '
              'type occurs at two levels); distinct (configuration, deviation) pairs counted.'),
     'assumptions': ['two instances of one unique type inside one list are generated only for the Route\'s own list (kept once / a non-reorderable one refused); '
                     'when such a duplicate meets a second construction defect either documented exception is accepted',
@@ -179,12 +180,41 @@ def body(case, ctx):
         ctx.nt(rc, sample=len(ctx.samples) < 3)
 
 
+FAMILY_LISTS = [[], [0], [2], [0, 2], [2, 0], [0, 4], [1], [4], [6, 0]]
+
+
+def stack_family():
+    """complete: every combination of these middleware-type lists (unique 0 / 2, 1 derived from 0, non-unique 4, non-reorderable 6)
+    on an application, an application embedded in it and the route - so that every way of naming one unique type at two or
+    three levels, in leading or other positions, occurs; each stack once undisturbed and once with one deviating function"""
+    from vlib import gen_config as G
+    import itertools
+
+    def mws(tids):
+        return [{'tid': t, 'unique': G.TYPES[t][0], 'reorderable': G.TYPES[t][1], 'style': 'method' if t % 2 else 'func', 'provides': [],
+                 'endpoint_provides': [], 'render_provides': [], 'request': [], 'endpoint': [], 'render': None, 'call': 'kw'} for t in tids]
+    out = []
+    for k, (l0, l1, r) in enumerate(itertools.product(FAMILY_LISTS, repeat=3)):
+        cfg = {'levels': [{'res': [], 'mws': mws(l0)}, {'res': [], 'prefix': '/s1', 'mws': mws(l1)}],
+               'route': {'res': [], 'url': [], 'mws': mws(r), 'ep': [], 'ep_kind': 'func', 'rn': None, 'ep_returns': 'response'},
+               'build': 'list' if k % 3 else 'add'}
+        out.append([cfg, 0, 'raise-before', 'route', 'none', 'response', []])
+        out.append([cfg, k, MW_DEV[k % len(MW_DEV)], 'route', 'any', 'response', []])
+    return out
+
+
 def shards(tier, seed):
     n = 250 if tier == 'quick' else 11000
-    return [{'n': n} for _ in range(16)]
+    return [{'n': n, 'family': k} for k in range(16)]
 
 
 def run_shard(spec, ctx):
+    for case in stack_family()[spec.get('family', 0)::16]:
+        ctx.case(case)
+        try:
+            body(case, ctx)
+        except Exception as e:
+            ctx.classify_exc(e, case, 'case')
     ctx.hyp(strategy(), body, spec['n'], kind='case')
 
 
